@@ -1,7 +1,8 @@
 //! C19 — rc and arc runtimes behave identically; shared containers are atomic under arc.
 //!
-//! (a) differential: programs of the progmc families run on the rc build (this process) and on
-//!     the arc build (worker processes); observations must be identical.
+//! (a) differential: programs of the progmc families and the re-entrancy product run on the rc
+//!     build and on the arc build, both in worker processes under the same harness-owned limits
+//!     (tick budget, native stack, allocation cap); observations must be identical.
 //! (b) CHESS-style preemption-bounded exploration of real threads: k arc-built runtimes share one
 //!     list/map; a cooperative scheduler owns every scheduling decision at lock acquisitions of
 //!     the shared container (hook H2); linearizability is decided by brute force against all
@@ -686,16 +687,16 @@ pub mod arc_side {
         }
         struct SelfDeadlock;
         koto_memory::verif_sched::set_hook(Some(single_hook));
-        let cfg = crate::run::RunCfg::default();
+        let (cfg, src) = super::differential_request(src);
         let r = std::panic::catch_unwind(|| crate::run::run_script(src, &cfg));
         koto_memory::verif_sched::set_hook(None);
         match r {
-            Ok(obs) => format!("{}\u{1}{}", obs.stdout.replace('\n', "\u{2}"), outcome_text(&obs.outcome)),
+            Ok(obs) => super::differential_answer(&obs),
             Err(p) => {
                 if p.downcast_ref::<SelfDeadlock>().is_some() {
-                    "\u{1}self-deadlock".into()
+                    "\u{1}self-deadlock\u{3}0".into()
                 } else {
-                    "\u{1}panic".into()
+                    "\u{1}panic\u{3}0".into()
                 }
             }
         }
@@ -704,11 +705,92 @@ pub mod arc_side {
 
 /// the rc side of the differential for programs that may exhaust memory (worker mode `rc-run`)
 pub fn worker_rc_run(src: &str) -> String {
-    let cfg = crate::run::RunCfg::default();
+    let (cfg, src) = differential_request(src);
     match std::panic::catch_unwind(|| crate::run::run_script(src, &cfg)) {
-        Ok(obs) => format!("{}\u{1}{}", obs.stdout.replace('\n', "\u{2}"), outcome_text(&obs.outcome)),
-        Err(_) => "\u{1}panic".to_string(),
+        Ok(obs) => differential_answer(&obs),
+        Err(_) => "\u{1}panic\u{3}0".to_string(),
     }
+}
+
+// The differential's resource limits are owned by the harness and identical on both builds:
+// an instruction (tick) budget per program, a fixed native stack, and a cap on allocated bytes.
+// The supervisor's address-space and wall limits are backstops that no program of the unchanged
+// tree comes near.
+
+/// native stack of the thread that runs the programs (the main thread's depends on `ulimit -s`)
+pub const DIFF_STACK_BYTES: usize = 64 << 20;
+/// allocation cap per program (see memcap.rs); unbounded growth aborts the worker here
+pub const DIFF_MEM_CAP_BYTES: usize = 512 << 20;
+/// tick budget of the generated-family programs
+pub const DIFF_TICKS_FAMILIES: u64 = 2_000_000;
+/// tick budget of the re-entrancy product (3-element containers; a callback that inserts at the
+/// front of the list it is called for makes each tick cost O(size): quadratic native work)
+pub const DIFF_TICKS_REENTRANT: u64 = 50_000;
+const DIFF_WALL: std::time::Duration = std::time::Duration::from_secs(120);
+const DIFF_ADDRESS_SPACE_KB: u64 = 4_000_000;
+
+/// worker side of the rc/arc differential (modes `rc-run`, `arc-run`)
+pub fn differential_worker(handle: fn(&str) -> String) -> i32 {
+    std::thread::Builder::new()
+        .stack_size(DIFF_STACK_BYTES)
+        .spawn(move || {
+            crate::memcap::arm(DIFF_MEM_CAP_BYTES);
+            crate::workers::worker_loop(&mut |req| {
+                crate::memcap::rebase();
+                handle(req)
+            })
+        })
+        .expect("spawn worker thread")
+        .join()
+        .unwrap_or(2)
+}
+
+fn differential_request(req: &str) -> (crate::run::RunCfg, &str) {
+    let (budget_ticks, src) = match req.split_once('\n') {
+        Some((head, src)) if head.starts_with("ticks=") => (head[6..].parse().unwrap_or(DIFF_TICKS_FAMILIES), src),
+        _ => (DIFF_TICKS_FAMILIES, req),
+    };
+    (crate::run::RunCfg { budget_ticks, ..crate::run::RunCfg::default() }, src)
+}
+
+/// `<stdout>\u{1}<outcome>\u{3}<ticks>`: ticks are reported for the evidence, not compared
+fn differential_answer(obs: &crate::run::Obs) -> String {
+    format!("{}\u{1}{}\u{3}{}", obs.stdout.replace('\n', "\u{2}"), outcome_text(&obs.outcome), obs.ticks)
+}
+
+/// One side's observation of one program
+#[derive(Clone, Debug, PartialEq, Eq)]
+enum DiffObs {
+    /// `<stdout>\u{1}<outcome>`
+    Observed(String),
+    /// the program exhausted the memory cap / native stack (worker died) or gave no answer
+    /// within the supervisor's wall limit: it has neither a result nor a complete output
+    Exhausted(&'static str),
+}
+
+fn differential_side(exe: &str, mode: &str, requests: &[String]) -> (Vec<DiffObs>, Vec<u64>) {
+    let answers = crate::workers::run_pool_exe(exe, mode, requests, threads(), DIFF_WALL, DIFF_ADDRESS_SPACE_KB);
+    let mut obs = vec![];
+    let mut ticks = vec![];
+    for a in answers {
+        match a {
+            crate::workers::WorkerAnswer::Line(l) => {
+                let l = l.replace("\\n", "\n");
+                let (o, t) = l.rsplit_once('\u{3}').unwrap_or((l.as_str(), "0"));
+                ticks.push(t.parse().unwrap_or(0));
+                obs.push(DiffObs::Observed(o.to_string()));
+            }
+            crate::workers::WorkerAnswer::Died => {
+                ticks.push(0);
+                obs.push(DiffObs::Exhausted("worker died (memory cap / native stack)"));
+            }
+            crate::workers::WorkerAnswer::Hung => {
+                ticks.push(0);
+                obs.push(DiffObs::Exhausted("no answer within the wall limit"));
+            }
+        }
+    }
+    (obs, ticks)
 }
 
 pub fn outcome_text(o: &crate::run::Outcome) -> String {
@@ -799,6 +881,25 @@ pub fn run(args: &Args) -> i32 {
             println!("{ans:?}");
             let bad = matches!(&ans[0], crate::workers::WorkerAnswer::Line(l) if l.split('\t').nth(4).map(|v| !v.is_empty()).unwrap_or(true));
             if bad {
+                println!("VIOLATION property={} replay={}", args.property, path);
+                return 1;
+            }
+            return 0;
+        }
+        if let Some((_, src)) = text.split_once("--- program ---\n") {
+            // a program of the rc/arc differential: both builds again, same limits
+            let ticks = if reentrant_programs().iter().any(|p| p == src) { DIFF_TICKS_REENTRANT } else { DIFF_TICKS_FAMILIES };
+            let requests = vec![format!("ticks={ticks}\n{src}")];
+            let rc_exe = std::env::current_exe().expect("current exe").display().to_string();
+            let (r, _) = differential_side(&rc_exe, "rc-run", &requests);
+            let (a, _) = differential_side(ARC_EXE, "arc-run", &requests);
+            println!("rc  observes {:?}\narc observes {:?}", r[0], a[0]);
+            let same = match (&r[0], &a[0]) {
+                (DiffObs::Observed(r), DiffObs::Observed(a)) => r == a && !r.contains("panic"),
+                (DiffObs::Exhausted(_), DiffObs::Exhausted(_)) => true,
+                _ => false,
+            };
+            if !same {
                 println!("VIOLATION property={} replay={}", args.property, path);
                 return 1;
             }
@@ -927,41 +1028,61 @@ pub fn run(args: &Args) -> i32 {
     }
     sources.sort();
     sources.dedup();
-    let mut rc_obs = par_shards_big_stack(sources.len(), 64 << 20, |i| {
-        let obs = crate::run::run_script(&sources[i], &crate::run::RunCfg::default());
-        format!("{}\u{1}{}", obs.stdout.replace('\n', "\u{2}"), outcome_text(&obs.outcome))
-    });
-    // re-entrant callbacks can grow a container without bound: both sides run in memory-limited workers
+    let n_family = sources.len();
+    // re-entrant callbacks can grow a container without bound
     let reentrant = reentrant_programs();
-    let re_rc = crate::workers::run_pool("rc-run", &reentrant, threads(), std::time::Duration::from_secs(10), 2_000_000);
-    for (src, a) in reentrant.iter().zip(re_rc.iter()) {
-        sources.push(src.clone());
-        rc_obs.push(match a {
-            crate::workers::WorkerAnswer::Line(l) => l.replace("\\n", "\n"),
-            other => format!("{other:?}"),
-        });
-    }
-    let arc_obs = crate::workers::run_pool_exe(ARC_EXE, "arc-run", &sources, threads(), std::time::Duration::from_secs(10), 2_000_000);
+    sources.extend(reentrant.iter().cloned());
+    // both sides run in worker processes under the same harness-owned limits
+    let requests: Vec<String> = sources
+        .iter()
+        .enumerate()
+        .map(|(i, src)| format!("ticks={}\n{src}", if i < n_family { DIFF_TICKS_FAMILIES } else { DIFF_TICKS_REENTRANT }))
+        .collect();
+    let rc_exe = std::env::current_exe().expect("current exe").display().to_string();
+    let (rc_obs, rc_ticks) = differential_side(&rc_exe, "rc-run", &requests);
+    let (arc_obs, _) = differential_side(ARC_EXE, "arc-run", &requests);
     let mut differential = 0u64;
     let mut diff_distinct: HashSet<u64> = HashSet::new();
-    for ((src, r), a) in sources.iter().zip(rc_obs.iter()).zip(arc_obs.iter()) {
+    let mut exhausted_both = 0u64;
+    let mut exhausted_samples: Vec<String> = vec![];
+    let mut exhausted_effects: HashSet<String> = HashSet::new();
+    let mut budget_both = 0u64;
+    let mut max_ticks_completed = [0u64; 2];
+    for (i, ((src, r), a)) in sources.iter().zip(rc_obs.iter()).zip(arc_obs.iter()).enumerate() {
         differential += 1;
-        diff_distinct.insert(hash_of(r));
-        let a_text = match a {
-            crate::workers::WorkerAnswer::Line(l) => l.replace("\\n", "\n"),
-            other => format!("{other:?}"),
+        let (r_text, a_text) = match (r, a) {
+            (DiffObs::Observed(r), DiffObs::Observed(a)) => (r.clone(), a.clone()),
+            (DiffObs::Exhausted(rw), DiffObs::Exhausted(aw)) => {
+                // no result and no complete output on either build: nothing to compare
+                exhausted_both += 1;
+                let call = src.lines().find(|l| l.starts_with("  r = ")).unwrap_or("").trim();
+                let eff = callback_effect(src);
+                if exhausted_samples.len() < 8 && exhausted_effects.insert(eff.clone()) {
+                    exhausted_samples.push(format!("`{call}` with callback / operator effect `{eff}`: rc {rw}, arc {aw}"));
+                }
+                diff_distinct.insert(hash_of("exhausted"));
+                continue;
+            }
+            (DiffObs::Observed(r), DiffObs::Exhausted(aw)) => (r.clone(), format!("no observation: {aw}")),
+            (DiffObs::Exhausted(rw), DiffObs::Observed(a)) => (format!("no observation: {rw}"), a.clone()),
         };
-        if r.contains("Panic") || r.contains("panic") {
-            let call = src.lines().find(|l| l.starts_with("  r = ")).unwrap_or("").trim().to_string();
-            let lines: Vec<&str> = src.lines().collect();
-            let eff = lines.iter().position(|l| l.starts_with("cb = |x|") || l.trim_start().starts_with("@<: |o|") || l.trim() == "@display: ||").and_then(|i| lines.get(i + 1)).map(|l| l.trim().to_string()).unwrap_or_default();
-            report.fail(None, format!("[reentrancy] the rc build panics: `{call}` while its callback / comparison does `{eff}`"), format!("rc observes {:?}\n--- program ---\n{src}", readable(r)));
+        diff_distinct.insert(hash_of(&r_text));
+        if r_text.ends_with("\u{1}budget") && a_text.ends_with("\u{1}budget") {
+            budget_both += 1;
+        } else {
+            let k = usize::from(i >= n_family);
+            max_ticks_completed[k] = max_ticks_completed[k].max(rc_ticks[i]);
         }
-        if *r != a_text {
+        if r_text.contains("Panic") || r_text.contains("panic") {
+            let call = src.lines().find(|l| l.starts_with("  r = ")).unwrap_or("").trim().to_string();
+            let eff = callback_effect(src);
+            report.fail(None, format!("[reentrancy] the rc build panics: `{call}` while its callback / comparison does `{eff}`"), format!("rc observes {:?}\n--- program ---\n{src}", readable(&r_text)));
+        }
+        if r_text != a_text {
             report.fail(
                 None,
-                format!("[rc-vs-arc] rc observes {:?} but arc observes {:?}", readable(r), readable(&a_text)),
-                format!("rc observes {:?}\narc observes {:?}\n--- program ---\n{src}", readable(r), readable(&a_text)),
+                format!("[rc-vs-arc] rc observes {:?} but arc observes {:?}", readable(&r_text), readable(&a_text)),
+                format!("rc observes {:?}\narc observes {:?}\n--- program ---\n{src}", readable(&r_text), readable(&a_text)),
             );
         }
     }
@@ -975,17 +1096,32 @@ pub fn run(args: &Args) -> i32 {
     report.cov("evaluations", schedules + differential);
     report.cov("distinct_nontrivial", distinct_outcomes + diff_distinct.len() as u64);
     report.cov("rc_vs_arc_programs", differential);
+    report.cov("rc_vs_arc_programs_exhausting_resources_on_both_builds", exhausted_both);
+    report.cov("rc_vs_arc_exhausted_samples", json!(exhausted_samples));
+    report.cov("rc_vs_arc_programs_cut_by_the_tick_budget_on_both_builds", budget_both);
+    report.cov("rc_vs_arc_max_ticks_of_a_completed_program", json!({"families": max_ticks_completed[0], "reentrancy_product": max_ticks_completed[1], "budgets": [DIFF_TICKS_FAMILIES, DIFF_TICKS_REENTRANT]}));
     report.cov("preemption_bound", bound as u64);
     report.cov("exhaustive", true);
-    report.cov("rule", format!("(b) every ordered pair of single operations from a {}-operation list alphabet and a {}-operation map alphabet on 2 threads, plus 2+1 operation and 3-thread programs over a core alphabet; each program: every schedule with <= {bound} preemptions of real OS threads running real arc-built runtimes, scheduling points = every lock acquisition on the shared container (hook H2), executions always run to completion; oracle: no panic, no deadlock, (results, final contents) equals some sequential order (brute force over all merge orders on the real runtime). states = scheduling points visited, transitions = scheduling decisions. (a) {} generated programs + aliasing shapes run on the rc build and on the arc build (a blocked acquisition in single-thread arc = self-deadlock); observations must be identical", list_ops().len(), map_ops().len(), differential));
+    report.cov("rule", format!("(b) every ordered pair of single operations from a {}-operation list alphabet and a {}-operation map alphabet on 2 threads, plus 2+1 operation and 3-thread programs over a core alphabet; each program: every schedule with <= {bound} preemptions of real OS threads running real arc-built runtimes, scheduling points = every lock acquisition on the shared container (hook H2), executions always run to completion; oracle: no panic, no deadlock, (results, final contents) equals some sequential order (brute force over all merge orders on the real runtime). states = scheduling points visited, transitions = scheduling decisions. (a) {} generated programs + aliasing shapes + the re-entrancy product run on the rc build and on the arc build (a blocked acquisition in single-thread arc = self-deadlock), both in worker processes under the same harness-owned limits (tick budget {DIFF_TICKS_FAMILIES} / {DIFF_TICKS_REENTRANT} instructions, {} MiB native stack, {} MiB allocation cap counted by the harness' allocator); (stdout, outcome) must be identical; a program that exhausts memory or native stack on BOTH builds has no result on either and is counted, not compared; exhaustion on one build only is a violation", list_ops().len(), map_ops().len(), differential, DIFF_STACK_BYTES >> 20, DIFF_MEM_CAP_BYTES >> 20));
     if samples.is_empty() {
         samples.push(specs[0].clone());
     }
     report.cov("samples", json!(samples));
     report.assume("sequentially consistent interleavings at lock operations; parking_lot and Arc are trusted to provide the ordering they document (weak-memory effects are not explored)");
+    report.assume("rc/arc differential: programs that exhaust the allocation cap or the native stack (unbounded growth / unbounded recursion through nested VM entries driven by a re-entrant callback) on both builds are outside the comparison (no result, no complete output); which of the two limits or the supervisor's wall limit stops such a program is not compared");
     report.assume("operations that call back into scripts (update, transform, retain, sort with key) are compound by construction and excluded from the atomicity alphabet");
     report.assume("parking_lot's writer preference is modelled in the scheduler (a recursive read with a waiting writer is a deadlock) from the acquire/release events of hook H2; other fairness effects are not modelled");
     report.finish()
+}
+
+fn callback_effect(src: &str) -> String {
+    let lines: Vec<&str> = src.lines().collect();
+    lines
+        .iter()
+        .position(|l| l.starts_with("cb = |x|") || l.trim_start().starts_with("@<: |o|") || l.trim() == "@display: ||")
+        .and_then(|i| lines.get(i + 1))
+        .map(|l| l.trim().to_string())
+        .unwrap_or_default()
 }
 
 fn readable(s: &str) -> String {
